@@ -190,6 +190,7 @@ type jCase struct {
 	Fresh    []int `json:"fresh"`    // order in which the fresh gateway receives the latest objects (permutation prefix)
 	Views    bool  `json:"views"`
 	NoSteps  bool  `json:"nosteps"` // C11: no per-step host probes
+	XP       [][2]B `json:"xp"`     // C10: requests with Host = [0] arriving on a TLS connection whose SNI was [1]
 }
 
 var gateNames = []string{"CloseConnectionWhenIdle", "DenyAllRequests", "GlobalRateLimiter", "Tracing", "NoSuchGate"}
@@ -351,11 +352,12 @@ type hostObs struct {
 
 var longRunning = func(r *http.Request, ri *apirequest.RequestInfo) bool { return false }
 
-func (g *gateway) resolve(host string) hostObs {
-	o := hostObs{}
-	// the request path: real ExtraRequestInfoFactory + real WithUpstreamInfo filter
+// request path: real ExtraRequestInfoFactory + real WithUpstreamInfo filter; tlsState (may be nil) is the
+// connection state of the TLS connection the request arrived on
+func (g *gateway) request(host string, tlsState *tls.ConnectionState) (c string, stopped bool, code int) {
 	req := httptest.NewRequest("GET", "/api/v1/pods", nil)
 	req.Host = host
+	req.TLS = tlsState
 	req = req.WithContext(apirequest.WithRequestInfo(req.Context(), &apirequest.RequestInfo{IsResourceRequest: true, Verb: "get", Resource: "pods", Path: "/api/v1/pods"}))
 	info, err := (&gwrequest.ExtraRequestInfoFactory{LongRunningFunc: longRunning}).NewExtraRequestInfo(req)
 	must(err)
@@ -365,12 +367,18 @@ func (g *gateway) resolve(host string) hostObs {
 	rec := httptest.NewRecorder()
 	h.ServeHTTP(rec, req)
 	if !reached {
-		o.Code = rec.Code
+		code = rec.Code
 	}
 	if info.UpstreamCluster != nil {
-		o.C = info.UpstreamCluster.Cluster
-		o.Stopped = info.UpstreamCluster.Context().Err() != nil
+		c = info.UpstreamCluster.Cluster
+		stopped = info.UpstreamCluster.Context().Err() != nil
 	}
+	return
+}
+
+func (g *gateway) resolve(host string) hostObs {
+	o := hostObs{}
+	o.C, o.Stopped, o.Code = g.request(host, nil)
 	// the handshake path: SNI carries the host without port
 	sni := host
 	if i := strings.LastIndex(sni, ":"); i >= 0 && !strings.Contains(sni, "]") {
@@ -522,11 +530,17 @@ func (g *gateway) view(name string, schemas []B, hosts []B) viewObs {
 
 // ------------------------------------------------------------------ running a history
 
+type xObs struct {
+	C    string `json:"c"`    // cluster that served the request ("" = none)
+	Code int    `json:"code"` // 0 handler reached, else the status written by the filter
+}
+
 type stepObs struct {
 	Valid     bool      `json:"valid"`     // apply: the real admission plugin accepted the object
 	Delivered bool      `json:"delivered"` // an event reached syncUpstreamCluster
 	Res       string    `json:"res"`       // ok | requeue | err | none
 	Hosts     []hostObs `json:"hosts"`
+	X         []xObs    `json:"x"`
 }
 
 type histObs struct {
@@ -546,7 +560,7 @@ func runHistory(raw json.RawMessage) interface{} {
 	out := histObs{Steps: []stepObs{}, Hot: []viewObs{}, Fresh: []viewObs{}, FreshRes: []string{}, Latest: []B{}}
 	delivered := make([]*proxyv1alpha1.UpstreamCluster, len(c.Ops))
 	for i, op := range c.Ops {
-		st := stepObs{Res: "none", Hosts: []hostObs{}}
+		st := stepObs{Res: "none", Hosts: []hostObs{}, X: []xObs{}}
 		switch op.Op {
 		case "apply":
 			obj := buildObj(op.Obj)
@@ -579,6 +593,10 @@ func runHistory(raw json.RawMessage) interface{} {
 		if !c.NoSteps {
 			for _, h := range c.Hosts {
 				st.Hosts = append(st.Hosts, g.resolve(h.S()))
+			}
+			for _, x := range c.XP {
+				cl, _, code := g.request(x[0].S(), &tls.ConnectionState{ServerName: x[1].S(), HandshakeComplete: true})
+				st.X = append(st.X, xObs{C: cl, Code: code})
 			}
 		}
 		out.Steps = append(out.Steps, st)
